@@ -600,9 +600,25 @@ func init() {
 			// (2) every transition to StatusPaused is followed by stopping the ticker: in the same
 			// statement (a helper that does both) or in a later statement of the same statement list
 			nPaused := 0
-			stopsTicker := func(n ast.Node) bool {
+			// a Stop call counts when it runs whenever there is a ticker: unguarded, or under
+			// `ticker != nil` (a call in the `ticker == nil` branch stops nothing)
+			var stopsTicker func(n ast.Node) bool
+			stopsTicker = func(n ast.Node) bool {
 				found := false
 				inspect(n, func(m ast.Node) bool {
+					if found {
+						return false
+					}
+					if is, ok := m.(*ast.IfStmt); ok {
+						if x, notNil, isNil := pathsim.IsNilCompare(info, is.Cond); isNil && prog.SelField(info, x) == tick {
+							if notNil {
+								found = stopsTicker(is.Body)
+							} else if is.Else != nil {
+								found = stopsTicker(is.Else)
+							}
+							return false
+						}
+					}
 					if call, ok := m.(*ast.CallExpr); ok {
 						if sel, ok := ast.Unparen(call.Fun).(*ast.SelectorExpr); ok && sel.Sel.Name == "Stop" && prog.SelField(info, sel.X) == tick {
 							found = true
